@@ -36,7 +36,8 @@ VARIABLES
 
 vars == <<l, run, tabs, reserved, plugins, flags, stack, genf, cur, lastAdd, files, pass, bad>>
 
-NoRun  == [id |-> "none", ident |-> FALSE, calls |-> <<>>, assertExit |-> FALSE, autoname |-> FALSE, dedup |-> FALSE]
+NoRun  == [id |-> "none", ident |-> FALSE, calls |-> <<>>, assertExit |-> FALSE, autoname |-> FALSE, dedup |-> FALSE,
+           mustSucceed |-> FALSE, wellTyped |-> FALSE]
 NoGen  == [active |-> FALSE, prefix |-> "", key |-> <<>>]
 NoCur  == [name |-> "", key |-> <<>>, file |-> "", undef |-> FALSE]
 NoPass == [errSeen |-> FALSE, exitErr |-> FALSE, content |-> FALSE, undefined |-> <<>>,
@@ -307,7 +308,8 @@ PkgExit ==
 
 \* RunEnd is written by the harness: exit status plus go/types observations.
 PostOK(post) ==
-  {<<"RunEnd: package with derived.gen.go does not type-check after a successful run", post.typechecks>>,
+  {<<"RunEnd: package with derived.gen.go does not type-check after a successful run with -autoname/-dedup (C11)",
+       (run.autoname \/ run.dedup \/ run.ident) => post.typechecks>>,
    <<"RunEnd: a call site invokes a function whose parameters are not exactly its argument types (C11)",
        \A i \in DOMAIN post.sites : post.sites[i].arg = post.sites[i].param>>,
    <<"RunEnd: a generated function took a name the user calls elsewhere (C11)",
@@ -321,6 +323,15 @@ RunEnd ==
   /\ LET expect == ExpectedExit(run.calls, run.autoname, run.dedup) IN
      Fail(Checks({
         <<"RunEnd: goderive crashed or hung (C09)", ~Ev.timedout /\ ~Ev.panicked>>,
+        <<"RunEnd: goderive fails on a package whose derive calls are all inside the supported grammar (C01)",
+            run.mustSucceed => Ev.exit = 0>>,
+        <<"RunEnd: package with derived.gen.go does not type-check although every call is supported (C01)",
+            (run.mustSucceed /\ Ev.exit = 0 /\ Ev.post.present) => Ev.post.typechecks>>,
+        <<"RunEnd: a derive call resolves to no generated function (C01)",
+            (run.mustSucceed /\ Ev.exit = 0 /\ Ev.post.present) => Ev.post.unresolved = <<>> >>,
+        <<"RunEnd: exit 0 but derived.gen.go does not parse or type-check (C09)",
+            (run.wellTyped /\ ~run.mustSucceed /\ Ev.exit = 0 /\ Ev.post.present) => Ev.post.typechecks>>,
+        <<"RunEnd: non-zero exit without a diagnostic (C09)", Ev.exit # 0 => Ev.diagnostic>>,
         <<"RunEnd: a generator error did not reach the exit status (C09)", pass.exitErr => Ev.exit # 0>>,
         <<"RunEnd: exit status contradicts the conflict/duplicate rules (C11): expected " \o expect,
             (run.assertExit /\ expect # "any") => ((Ev.exit = 0) <=> (expect = "ok"))>>,
